@@ -208,6 +208,10 @@ class FileStub(NativeModel):
     def write(self, x):
         if isinstance(x, SymStr):
             self.lines.append(x)
+        elif isinstance(x, (bytes, str)):
+            t = x.decode() if isinstance(x, bytes) else x
+            if t.strip() and not t.lstrip().startswith(("[", ";")):
+                self.lines.append(t)          # a data line without symbolic fields (e.g. ORDER BULK 2); headers and comments are dropped
 
 
 class WnW(NativeModel):
@@ -555,7 +559,142 @@ def _rule_case(units, ck, then_cls, else_cls):
     return Case("%s,if_%s_of_%s,then_%s,else_%s" % (units.name, attr, nm(ccls), nm(then_cls), nm(else_cls)), build, crosscheck=False)
 
 
+# ---------------------------------------------------------------------------- [EMITTERS] and [ENERGY]
+
+class _Bag(NativeModel):
+    """a plain attribute holder that may hold symbolic values (options.energy, ...)"""
+
+    def __init__(self, **kw):
+        self.__dict__.update(kw)
+
+
+class _WnE(NativeModel):
+    def __init__(self, nodes=None, links=None, energy=None, pumps=()):
+        self.nodes, self.links = nodes or {}, links or {}
+        self.options = types.SimpleNamespace(energy=energy)
+        self.junction_name_list = list(self.nodes)
+        self.pump_name_list = list(pumps)
+
+    def get_node(self, n):
+        for k, v in self.nodes.items():
+            if isinstance(k, SV) and isinstance(n, SV) and k.t.eq(n.t):
+                return v
+        raise KeyError(n)
+
+
+def _emitter_case(units):
+    def build(cx):
+        from contracts.c17_units import hyd_spec
+        from wntr.epanet.util import HydParam
+        jn, ec = cx.name("junction"), cx.real("emitter_coefficient")
+        cx.assume(cx.t(ec) != 0)                   # a junction with a zero / missing coefficient has no line (by design)
+        jw = SymObj(Junction, dict(_name=jn, _emitter_coefficient=ec))
+        jr = SymObj(Junction, dict(_name=jn, _emitter_coefficient=None))
+        wnw, wnr = _WnE(nodes={jn: jw}), _WnE(nodes={jn: jr})
+        inpr = _inp(units, wnr)
+        cx.target(_roundtrip_call, InpFile._write_emitters, InpFile._read_emitters, "[EMITTERS]", _inp(units, wnw), inpr, wnw)
+
+        def post(out):
+            if not out.returned:
+                return []
+            k, _ = hyd_spec(HydParam.EmitterCoeff, units, False)
+            toks = inpr.fields["sections"]["[EMITTERS]"][0][1].tokens() if out.value == 1 else []
+            return [("one_line_per_junction_with_an_emitter", out.value == 1),
+                    ("emitter_coefficient_round_trips", _eqn(jr.fields["_emitter_coefficient"], ec)),
+                    ("written_coefficient_is_flow_per_square_root_of_pressure_in_the_file_units", _within(Rr(toks[1]) * real_val(k), Rr(ec), 1e-6) if toks else False)]
+        cx.ensure(post)
+    return Case(units.name, build, crosscheck=False)
+
+
+def _energy_case(units):
+    def build(cx):
+        pn = cx.name("pump")
+        gp, ge, dc, pp = cx.real("global_price"), cx.real("global_efficiency"), cx.real("demand_charge"), cx.real("pump_price")
+        from wntr.network.elements import PowerPump
+        pw = SymObj(PowerPump, dict(_link_name=pn, _efficiency=None, _energy_price=pp, _energy_pattern=None))
+        pr = SymObj(PowerPump, dict(_link_name=pn, _efficiency=None, _energy_price=None, _energy_pattern=None))
+        ew = _Bag(global_efficiency=ge, global_price=gp, demand_charge=dc, global_pattern=None)
+        er = _Bag(global_efficiency=None, global_price=None, demand_charge=None, global_pattern=None)
+        wnw, wnr = _WnE(links={pn: pw}, energy=ew, pumps=[pn]), _WnE(links={pn: pr}, energy=er, pumps=[pn])
+        inpr = _inp(units, wnr)
+        cx.target(_roundtrip_call, InpFile._write_energy, InpFile._read_energy, "[ENERGY]", _inp(units, wnw), inpr, wnw)
+
+        def post(out):
+            if not out.returned:
+                return []
+            lines = [ln[1].tokens() for ln in inpr.fields["sections"]["[ENERGY]"]]
+            price_line = [t for t in lines if t[0] == "PUMP" and t[2] == "PRICE"]
+            gprice_line = [t for t in lines if t[0] == "GLOBAL" and t[1] == "PRICE"]
+            return [("four_lines_written", out.value == 4),
+                    ("global_price_efficiency_and_demand_charge_round_trip", z3.And(_eqn(er.global_price, gp), _eqn(er.global_efficiency, ge), _eqn(er.demand_charge, dc))),
+                    ("pump_price_round_trips", _eqn(pr.fields["_energy_price"], pp)),
+                    ("prices_are_written_per_kilowatt_hour", z3.And(Rr(price_line[0][3]) == Rr(pp) * 3600000, Rr(gprice_line[0][2]) == Rr(gp) * 3600000)
+                     if len(price_line) == 1 and len(gprice_line) == 1 else False)]
+        cx.ensure(post)
+    return Case(units.name, build, crosscheck=False)
+
+
+# ---------------------------------------------------------------------------- [REACTIONS]: coefficients whose conversion depends on the reaction order
+
+class _WnRx(NativeModel):
+    def __init__(self, tank, pipe, rx):
+        self.tank, self.pipe = tank, pipe
+        self.options = types.SimpleNamespace(reaction=rx)
+
+    def nodes(self, typ=None):
+        return [(self.tank.fields["_name"], self.tank)]
+
+    def links(self, typ=None):
+        return [(self.pipe.fields["_link_name"], self.pipe)]
+
+    def get_link(self, n):
+        return self.pipe
+
+    def get_node(self, n):
+        return self.tank
+
+
+def _reaction_case(units, bulk_order, wall_order):
+    def build(cx):
+        tn, pn = cx.name("tank"), cx.name("pipe")
+        kb, kw_, kt, gb, gw = cx.real("pipe_bulk"), cx.real("pipe_wall"), cx.real("tank_bulk"), cx.real("global_bulk"), cx.real("global_wall")
+
+        def side(vals):
+            tank = SymObj(Tank, dict(_name=tn, _bulk_coeff=vals[2]))
+            pipe = SymObj(Pipe, dict(_link_name=pn, _bulk_coeff=vals[0], _wall_coeff=vals[1]))
+            return tank, pipe
+        tw, pw = side((kb, kw_, kt))
+        tr, pr = side((None, None, None))
+        rxw = _Bag(bulk_order=bulk_order, wall_order=wall_order, tank_order=bulk_order, bulk_coeff=gb, wall_coeff=gw, limiting_potential=None, roughness_correl=None)
+        rxr = _Bag(bulk_order=1, wall_order=1, tank_order=1, bulk_coeff=None, wall_coeff=None, limiting_potential=None, roughness_correl=None)     # defaults of a new model
+        wnw, wnr = _WnRx(tw, pw, rxw), _WnRx(tr, pr, rxr)
+        cx.target(_roundtrip_call, InpFile._write_reactions, InpFile._read_reactions, "[REACTIONS]", _inp(units, wnw), _inp(units, wnr), wnw)
+
+        def post(out):
+            if not out.returned:
+                return []
+            return [("reaction_orders_round_trip", rxr.bulk_order == bulk_order and rxr.wall_order == wall_order and rxr.tank_order == bulk_order),
+                    ("pipe_bulk_and_wall_coefficients_round_trip_under_the_model_s_reaction_orders", z3.And(_eqn(pr.fields["_bulk_coeff"], kb), _eqn(pr.fields["_wall_coeff"], kw_))),
+                    ("tank_coefficient_round_trips", _eqn(tr.fields["_bulk_coeff"], kt)),
+                    ("global_coefficients_round_trip", z3.And(_eqn(rxr.bulk_coeff, gb), _eqn(rxr.wall_coeff, gw)))]
+        cx.ensure(post)
+    return Case("%s,bulk_order=%d,wall_order=%d" % (units.name, bulk_order, wall_order), build, crosscheck=False)
+
+
 # ---------------------------------------------------------------------------- simple controls: [CONTROLS] lines
+
+def _token_models():
+    m = library.build_models()
+
+    def upper(interp, args, kw):
+        v = args[0]
+        if v.k in ("int", "real"):
+            return v
+        from pyvc.values import NameSort
+        return SV(z3.Function("upper_case", NameSort, NameSort)(v.t), "name")
+    m.register("sym:SV.upper", upper, trusted="token model: upper() of a numeric token is the token; of a name some name")
+    return m
+
 
 def _control_models():
     import wntr.network.controls as ctl
@@ -683,6 +822,12 @@ CONTRACTS = [
              note="conditional simple controls (tank level / junction pressure, above / below) with a status, valve setting or pump speed action; "
                   "time and clock-time controls are in the bounded round trip",
              trusted=_pair_trust),
+    Contract("wntr.epanet.io:InpFile._write_emitters/_read_emitters", P + ["C03"], [_emitter_case(u) for u in _U], interpret_always=(_roundtrip_call,), trusted=_pair_trust),
+    Contract("wntr.epanet.io:InpFile._write_energy/_read_energy", P, [_energy_case(u) for u in _U], interpret_always=(_roundtrip_call,),
+             note="global price / efficiency / demand charge and one pump with its own price; efficiency curves and patterns are in the bounded round trip", trusted=_pair_trust),
+    Contract("wntr.epanet.io:InpFile._write_reactions/_read_reactions", P, [_reaction_case(u, b, w) for u in _U for (b, w) in ((1, 1), (2, 0), (0, 1), (2, 1))],
+             models=_token_models, interpret_always=(_roundtrip_call,),
+             note="one pipe, one tank, global coefficients; the ORDER lines follow the coefficients in the written text", trusted=_pair_trust),
     Contract("wntr.epanet.io:InpFile._write_valves/_read_valves", P, [_valve_case(u, c) for u in _U for c in (PRValve, PSValve, PBValve, FCValve, TCValve)],
              interpret_always=(_roundtrip_call,), trusted=_pair_trust),
 ]
